@@ -694,11 +694,28 @@ func planReaderRun(mode string, k int, seed int64, thorough bool) (*readerRun, [
 		stream = mutated
 	case "c09":
 		run.Mode = "truncated"
+		retried := false
+		if k%4 == 1 {
+			// a valid stream is also one whose writer met a transient sink failure in Close and was closed again; it is cut near
+			// its end, where such a stream could differ
+			if s2 := kz.CompressRetry(orig, run.W, nil); s2 != nil {
+				if chk2, e2 := kz.Decompress(s2, kz.RCfg{Jobs: 1}, nil, nil, nil, size+1<<20); e2 == nil && string(chk2) == string(orig) {
+					stream = s2
+					retried = true
+				}
+			}
+		}
 		cut := rnd.Intn(len(stream))
+		if k%4 == 1 {
+			cut = len(stream) - 1 - rnd.Intn(min(9, len(stream)))
+		}
 		if rnd.Intn(3) == 0 {
 			cut = len(stream) - 1 - rnd.Intn(min(3, len(stream)))
 		}
 		run.Mut = fmt.Sprintf("cut@%d/%d", cut, len(stream))
+		if retried {
+			run.Mut += " (written with a retried Close)"
+		}
 		stream = stream[:cut]
 		if k%3 == 2 {
 			// a truncated stream read with a block range: the cut may fall inside a block that the range skips
